@@ -32,6 +32,12 @@ class Ctx:
         self.samples = []
         self.notes = []
         self.inconclusive = []
+        # re-ask monitor: a reservoir sample of the shard's own cases is executed a second time at the end of the shard,
+        # in shuffled order, i.e. after a different history (order-dependent state such as a "last match" or a memo keyed on
+        # too little shows as a value-oracle failure in the second pass)
+        self._mem, self._mem_seen, self._in_reask = [], 0, False
+        import random as _random
+        self._mem_rnd = _random.Random(khash(int(seed), prop, int(shard), "reask"))
 
     # one explored case
     def ran(self, n=1):
@@ -42,6 +48,31 @@ class Ctx:
 
     def count(self, name, n=1):
         self.counters[name] += n
+
+    def remember(self, fn, *args, cap=None):
+        if self._in_reask:
+            return
+        cap = cap or (600 if self.tier == "quick" else 4000)
+        self._mem_seen += 1
+        if len(self._mem) < cap:
+            self._mem.append((fn, args))
+        else:
+            j = self._mem_rnd.randrange(self._mem_seen)
+            if j < cap:
+                self._mem[j] = (fn, args)
+
+    def reask(self):
+        if self._in_reask or not self._mem:
+            return
+        self._in_reask = True
+        try:
+            mem = list(self._mem)
+            self._mem_rnd.shuffle(mem)
+            for fn, args in mem:
+                fn(self, *args)
+                self.counters["reasked_in_shuffled_order"] += 1
+        finally:
+            self._in_reask = False
 
     def sample(self, s, limit=4):
         if len(self.samples) < limit:
